@@ -1,5 +1,6 @@
 import Dino.Shard
 import Dino.ShardEinsum
+import Dino.ShardEinsumMat
 /-! Line-protocol operations for the sharding model: `shard <op> args…` (integer ops) and
  `shard <F|Q> <op> args…` (numeric ops).  3-D tables travel as matrices separated by `|`. -/
 namespace Dino.Shard
@@ -132,6 +133,19 @@ def renderDevMats (r : Option (List (MatL K))) : String :=
   | none => "value-error"
 
 def runK : List String → Option String
+  | ["semat", s, n, g, rspec, ospec, a, b] => do
+      -- `sharded_einsum(s, A, B, gather_inputs=g, rhs_spec, out_spec)` on two 2-D operands over a one-axis mesh of
+      -- `n` devices: the plan, then the collective it selects on the `shard_map` blocks; devices separated by `|`
+      let s ← parseChars? s; let n ← n.toNat?
+      let g ← (if g = "n" then some none else (parseBool? g).map some)
+      let rspec ← parseSpec? rspec; let ospec ← parseSpec? ospec
+      let a ← parseMat? (K := K) a; let b ← parseMat? (K := K) b
+      let w := (b.headD []).length
+      let lsh := (a.length, (a.headD []).length)
+      match ShardEinsum.plan s [lsh.1, lsh.2] [b.length, w] g rspec ospec with
+      | .error e => pure e
+      | .ok p =>
+        pure (renderDevMats K (ShardEinsum.shardedEinsumMat (fun l x => MatL.mk (Lin.matMul l x w)) p n lsh b.length a b))
   | ["agmat", n, k, r, w, a, b] => do
       -- A: (n·r) × (n·k) coefficients, device `d` holds rows chunk `d` (out spec); B: (n·k) × w inputs,
       -- device `s` holds rows chunk `s`; `einsum('ik,kj->ij')`, `split_axis = 1`
